@@ -78,7 +78,9 @@ static Json::Value gen() {
     int na = R(1, 3);
     for (int k = 0; k < na; k++) {
       std::string id = pre + "a" + std::to_string(k);
-      rs["actions"].append(pluginJson("vp_action", id));
+      Json::Value aj = pluginJson("vp_action", id);
+      if (withCgroup && P(25)) aj["args"]["cgroup"] = "own/" + id; // names its own target
+      rs["actions"].append(aj);
       for (auto& key : keys)
         for (int t = 0; t < nticks; t++) {
           Json::Value e(Json::objectValue);
@@ -259,7 +261,10 @@ static Verdict run(const Json::Value& sc) {
           if (a["deadline_ms"].isNull() || a["deadline_ms"].asInt64() != exp[k].deadline_ms) v.fail(who + " action " + exp[k].id + " saw prekill deadline " + jstr(a["deadline_ms"]) + ", expected " + std::to_string(exp[k].deadline_ms) + at);
           if (ri.cg) {
             if (a["target"].isNull() || a["target"].asString() != key) v.fail(who + " action context target is " + jstr(a["target"]) + at);
-            if (o[k]->j.get("cgarg", "").asString() != key) v.fail(who + " action " + exp[k].id + " was initialised with cgroup='" + o[k]->j.get("cgarg", "").asString() + "'" + at);
+            std::string own;
+            for (auto& aj : sc["config"]["rulesets"][(int)i]["actions"])
+              if (aj["args"]["id"].asString() == exp[k].id) own = aj["args"].get("cgroup", "").asString();
+            if (o[k]->j.get("cgarg", "").asString() != (own.empty() ? key : own)) v.fail(who + " action " + exp[k].id + " was initialised with cgroup='" + o[k]->j.get("cgarg", "").asString() + "'" + at);
           }
           std::string uuid = a["uuid"].asString();
           auto cu = chainUuid.find(exp[k].chain);
